@@ -75,6 +75,7 @@
 #define protected public
 #include "iora/network/websocket_frame.hpp"
 #include "iora/network/websocket_server.hpp"
+#include "iora/network/websocket_client.hpp"
 #undef private
 #undef protected
 #include "common/fake_engine.hpp"
@@ -140,6 +141,73 @@ struct Srv
   }
 };
 
+
+// Real WebSocketClient, post-upgrade data path, with a capturing transport. Outgoing frames are masked with a
+// random key: they are decoded (real parser; W1 covers it) and printed as opcode:fin:unmasked-payload.
+struct Cli
+{
+  std::shared_ptr<WebSocketClient> c;
+  vh::FakeEngine* eng = nullptr;
+  std::vector<std::string> evs;
+  static constexpr SessionId sid = 7;
+
+  void reset()
+  {
+    evs.clear();
+    if (!c)
+    {
+      c = WebSocketClient::create();
+      auto fe = std::make_unique<vh::FakeEngine>();
+      eng = fe.get();
+      TransportConfig cfg;
+      cfg.protocol = Protocol::TCP;
+      c->_transport = iora::network::test::TransportEngineInjector::withEngine(std::move(fe), cfg);
+      c->_sessionId = sid;
+      eng->onSend = [this](SessionId, const std::string& b) {
+        std::size_t consumed = 0;
+        auto f = WebSocketFrame::parse(iora::core::BufferView(reinterpret_cast<const std::uint8_t*>(b.data()), b.size()), consumed);
+        if (!f || consumed != b.size() || !f->masked) { evs.push_back("S:undecodable-or-unmasked:" + vh::toHex(b)); return; }
+        evs.push_back("S:" + std::to_string(static_cast<unsigned>(static_cast<std::uint8_t>(f->opcode))) + ":" + (f->fin ? "1" : "0") + ":" +
+                      vh::toHex(f->payload));
+      };
+      c->setOnTextMessage([this](const std::string& t) { evs.push_back("T:" + vh::toHex(t)); });
+      c->setOnBinaryMessage([this](const Bytes& b) { evs.push_back("B:" + vh::toHex(b)); });
+      c->setOnClose([this](std::uint16_t code, const std::string& r) { evs.push_back("C:" + std::to_string(code) + ":" + vh::toHex(r)); });
+      c->setOnError([this](const std::string&) { evs.push_back("E"); });
+    }
+    {
+      std::lock_guard<std::mutex> lock(c->_dataMutex);
+      c->_buffer.clear();
+      c->_fragmentBuffer.clear();
+      c->_fragmentOpcode = WsOpcode::CONTINUATION;
+    }
+    c->_upgradeComplete.store(true);
+    c->_closeEchoed.store(false);
+    c->_protocolFailed.store(false);
+#ifndef VERIF_WS_NO_F34
+    c->_closeSent = false;
+#endif
+    c->_state.store(WebSocketState::CONNECTED);
+  }
+
+  std::string flush()
+  {
+    std::string o;
+    if (evs.empty()) o = "-";
+    for (std::size_t i = 0; i < evs.size(); ++i) { if (i) o += ";"; o += evs[i]; }
+    evs.clear();
+    o += " | buf=" + std::to_string(c->_buffer.size());
+    o += std::string(" connected=") + (c->_state.load() == WebSocketState::CONNECTED ? "1" : "0");
+#ifndef VERIF_WS_NO_F34
+    o += std::string(" closeSent=") + (c->_closeSent ? "1" : "0");
+#else
+    o += std::string(" closeSent=?");
+#endif
+    o += std::string(" failed=") + (c->_protocolFailed.load() ? "1" : "0");
+    return o;
+  }
+};
+
 static std::string guarded(const std::function<std::string()>& f)
 {
   try { return f(); }
@@ -159,6 +227,8 @@ int main()
   iora::core::Logger::setLevel(iora::core::Logger::Level::Fatal);
   Srv srv;
   srv.reset(16777216);
+  Cli cli;
+  cli.reset();
   return vh::runLines([&](const std::vector<std::string>& t) -> std::string {
     return guarded([&]() -> std::string {
       Bytes d, k;
@@ -221,6 +291,19 @@ int main()
         {
           srv.s->sendClose(Srv::sid, static_cast<std::uint16_t>(n), std::string(d.begin(), d.end()));
           return srv.flush();
+        }
+      }
+      if (t.size() >= 2 && t[0] == "cli")
+      {
+        if (t.size() == 2 && t[1] == "reset") { cli.reset(); return "ok"; }
+        if (t.size() == 3 && t[1] == "data" && vh::ofHex(t[2], d)) { cli.c->handleData(Cli::sid, d.data(), d.size()); return cli.flush(); }
+        if (t.size() == 3 && t[1] == "sendText" && vh::ofHex(t[2], d)) { cli.c->sendText(std::string(d.begin(), d.end())); return cli.flush(); }
+        if (t.size() == 3 && t[1] == "sendBinary" && vh::ofHex(t[2], d)) { cli.c->sendBinary(d); return cli.flush(); }
+        if (t.size() == 3 && t[1] == "sendPing" && vh::ofHex(t[2], d)) { cli.c->sendPing(d); return cli.flush(); }
+        if (t.size() == 4 && t[1] == "sendClose" && vh::parseNat(t[2], n) && vh::ofHex(t[3], d))
+        {
+          cli.c->sendClose(static_cast<std::uint16_t>(n), std::string(d.begin(), d.end()));
+          return cli.flush();
         }
       }
       return "bad-op";
